@@ -12,20 +12,22 @@ from .srcmodel import Model
 PI = Rat.atom('pi')
 
 
-def const_fold(node) -> Rat:
-    """exact value of a constant expression (numbers, `pi`, + - * / **int)"""
+def const_fold(node, consts=None, _depth=0) -> Rat:
+    """exact value of a constant expression (numbers, `pi`, + - * / **int, names of module-level constants in `consts`)"""
     if isinstance(node, ast.Constant) and isinstance(node.value, (int, float)) and not isinstance(node.value, bool):
         return num(node.value)
     if isinstance(node, ast.Name) and node.id == 'pi':
         return PI
+    if isinstance(node, ast.Name) and consts and node.id in consts and _depth < 8:
+        return const_fold(consts[node.id], consts, _depth + 1)
     if isinstance(node, ast.Attribute) and node.attr == 'pi':
         return PI
     if isinstance(node, ast.UnaryOp) and isinstance(node.op, ast.USub):
-        return -const_fold(node.operand)
+        return -const_fold(node.operand, consts, _depth)
     if isinstance(node, ast.UnaryOp) and isinstance(node.op, ast.UAdd):
-        return const_fold(node.operand)
+        return const_fold(node.operand, consts, _depth)
     if isinstance(node, ast.BinOp):
-        l, r = const_fold(node.left), const_fold(node.right)
+        l, r = const_fold(node.left, consts, _depth), const_fold(node.right, consts, _depth)
         if isinstance(node.op, ast.Mult):
             return l * r
         if isinstance(node.op, ast.Div):
@@ -58,7 +60,7 @@ class UnitTables:
                         raise AnalysisError(f'{k}.__UNITS has a non-literal key')
                     if kk.value in tab:
                         raise AnalysisError(f'{k}.__UNITS has duplicate key {kk.value!r}')
-                    tab[kk.value] = const_fold(v)
+                    tab[kk.value] = const_fold(v, model.module_consts.get(ci.module, {}))
                 self.tables[k] = tab
                 self.nodes[k] = d
 
